@@ -360,7 +360,9 @@ func c19Matrix(f func(admitted, fallback bool, handler string)) {
 }
 
 var c19Bools = []bool{true, false}
-var c19Handlers = []string{"ok", "err", "panic"}
+// "errtyped": the handler fails with the framework's own error type carrying a client-error status (where the
+// framework has one; elsewhere it is a second plain failure)
+var c19Handlers = []string{"ok", "err", "panic", "errtyped"}
 
 func c19Name(ep string, admitted, fallback bool, handler string) string {
 	if c19PairTag != "" {
@@ -422,7 +424,7 @@ func c19GoZeroCase(t *testing.T, ep string, admitted, fallback bool, handler str
 		case "ok":
 			w.WriteHeader(http.StatusOK)
 			_, _ = w.Write([]byte("ok"))
-		case "err":
+		case "err", "errtyped":
 			w.WriteHeader(http.StatusInternalServerError)
 			_, _ = w.Write([]byte("err"))
 		case "panic":
